@@ -134,6 +134,9 @@ func runC12(r *Run) {
 	redisFaultSweep(r, "[C12]", nil)
 	busyStorePatterns(r, [][2]time.Duration{{10 * time.Second, 4 * time.Second}, {30 * time.Second, 10 * time.Second}, {10 * time.Second, 0}, {3 * time.Second, 3 * time.Second}})
 	concurrentMemoryStore(r)
+	if r.unknownViolations() == 0 {
+		concurrentExpiredReads(r, "[C12]")
+	}
 	r.Finish("every Redis store method with every single (and random multiple) command-level fault, applied or not, from five prior states x four timeout pairs: result, command trace and raw server state compared with the command-level model; store histories: every operation sequence up to the stated length over {settok x2, gettok, setauth, getauth, clear, remove} x 2 ids + tick (exhaustive, memory and Redis/miniredis, Redis operations routed to two store instances), plus random histories of 5-60 operations over 3 ids with ticks around the limits, timeouts on and off, and values outside the input guard; " +
 		"each line is executed on the real store and on the Lean store model, and judged by the Go reference map; non-trivial = at least one read returned data, distinct by the whole history")
 }
@@ -157,6 +160,7 @@ func runC10(r *Run) {
 		}
 	}
 	busyStorePatterns(r, pairs)
+	concurrentExpiredReads(r, "[C10]")
 	n := 800
 	if r.thorough() {
 		n = 30000
